@@ -126,10 +126,10 @@ the fallible path equals the exact rescale for *every* input, and the "infallibl
 wrapping-multiply shortcut equals it **for inputs that fit the declared precision `p1`**
 (DESIGN §6 item 4: the hypothesis cannot be dropped — see `upscaler_i8_wrap_defect` and the
 out-of-domain probes of the harness). -/
-theorem upscaler_exact (w2 p1 p2 : Nat) (s1 s2 : Int) (hw : WidthOK w2)
+theorem upscaler_exact (w1 w2 p1 p2 : Nat) (s1 s2 : Int) (hw : WidthOK w2)
     (hp2 : p2 ≤ maxPrecision w2) (hs : s1 ≤ s2) (hk : s2 - s1 ≤ (maxPrecision w2 : Int))
     (hnowrap : (p1 : Int) + (s2 - s1) ≤ 127) :
-    match upscaler p1 s1 w2 p2 s2 with
+    match upscaler w1 p1 s1 w2 p2 s2 with
     | .fallible f => ∀ x, f x = decToDecSpec s1 p2 s2 x
     | .infallible f => ∀ x, fitsPrec p1 x → f x = decToDecSpec s1 p2 s2 x
     | _ => False := by
@@ -144,8 +144,9 @@ theorem upscaler_exact (w2 p1 p2 : Nat) (s1 s2 : Int) (hw : WidthOK w2)
   simp only [hd, Int.toNat_natCast, hw.pow k hkm, hsum]
   have hneg : ¬ ((k : Int) < 0) := by omega
   simp only [hneg, if_false]
-  by_cases hinf : (p1 : Int) + (k : Int) ≤ (p2 : Int)
-  · simp only [hinf, if_true]
+  by_cases hinf : w1 ≤ w2 ∧ (p1 : Int) + (k : Int) ≤ (p2 : Int)
+  · simp only [hinf, and_self, if_true]
+    have hinf := hinf.2
     intro x hx
     have h1 : fitsPrec p2 (x * (10 : Int) ^ k) := fitsPrec_mono (by omega) _ (fitsPrec_mul p1 k x hx)
     have h2 : nativeOk w2 x := hw.native p2 x hp2 (fitsPrec_mono (by omega) x hx)
@@ -193,8 +194,8 @@ theorem downscaler_exact_partial (w1 w2 p1 p2 : Nat) (s1 s2 : Int) (hw1 : WidthO
   simp only [hd, Int.toNat_natCast, hw1.pow (k + 1) hkm, hsum, hdiv]
   have hneg : ¬ (((k + 1 : Nat) : Int) < 0) := by omega
   simp only [hneg, if_false]
-  by_cases hinf : (p1 : Int) - ((k + 1 : Nat) : Int) < (p2 : Int)
-  · simp only [hinf, if_true]
+  by_cases hinf : w1 ≤ w2 ∧ (p1 : Int) - ((k + 1 : Nat) : Int) < (p2 : Int)
+  · simp only [hinf, and_self, if_true]
     intro x hx
     rw [hkk, Int.toNat_natCast, hdiv'] at hx
     rw [hrs, downRound_eq_spec]
@@ -221,20 +222,16 @@ source tables) -/
 theorem widths_ok : WidthOK 32 ∧ WidthOK 64 ∧ WidthOK 128 ∧ WidthOK 256 :=
   ⟨widthOK32, widthOK64, widthOK128, widthOK256⟩
 
-/-- **Defect witness** (kept as a theorem so that a fix shows up as a broken proof): the `i8`
-sum `input_precision + delta_scale` in `make_upscaler` wraps for Decimal256(76,0) →
-Decimal256(76,60), the cast is taken to be infallible, and `10^30` comes out multiplied with
-wrap-around although it is not representable. -/
-theorem upscaler_i8_wrap_defect :
+/-- **Regression witness** for the former `i8` wrap in `make_upscaler`: Decimal256(76,0) →
+Decimal256(76,60) takes the checked path and `10^30` (not representable) is rejected. -/
+theorem upscaler_no_i8_wrap :
     (match decToDec 256 76 0 256 76 60 with
-     | .infallible f => f ((10 : Int) ^ 30)
-     | _ => none) =
-      some 51484102413631087777415798035541167055393351402420714880745735202410401366016 ∧
+     | .fallible f => f ((10 : Int) ^ 30)
+     | _ => some 0) = none ∧
     decToDecSpec 0 76 60 ((10 : Int) ^ 30) = none := by
   constructor
   · decide
   · decide
-
 
 /-! ## 4. text -/
 
